@@ -307,7 +307,7 @@ fn excluded_by_known_finding(p: Prop, w: &mut World, o: &Op, known_open: &dyn Fn
     // existing paths below the destination (only the copied element's own name is made unique)
     if matches!(o.code, op::COPY | op::COPY_AT | op::MOVE | op::MOVE_AT) && known_open("container-copy-or-move:child-path-collides-in-destination") {
         if let Some((pid, sid)) = w.peek_copy_move(o) {
-            if container_children_collide(w, pid, sid) {
+            if container_children_collide(w, pid, sid, matches!(o.code, op::MOVE | op::MOVE_AT)) {
                 return Some("KF-C04-1");
             }
         }
@@ -335,10 +335,11 @@ fn top_identifiables(e: &autosar_data::Element, out: &mut Vec<String>) {
 }
 
 pub fn container_children_collide_pub(w: &mut World, pid: usize, sid: usize) -> bool {
-    container_children_collide(w, pid, sid)
+    // conservative for callers that do not say whether it is a move: treat as copy (the source stays)
+    container_children_collide(w, pid, sid, false)
 }
 
-fn container_children_collide(w: &mut World, pid: usize, sid: usize) -> bool {
+fn container_children_collide(w: &mut World, pid: usize, sid: usize, is_move: bool) -> bool {
     let src = w.elems[sid].clone();
     if matches!(own_item_name(&src), Some(Some(_))) {
         return false;
@@ -367,7 +368,8 @@ fn container_children_collide(w: &mut World, pid: usize, sid: usize) -> bool {
     let mi = w.model_of_pub(pid);
     let model = w.models[mi].clone();
     let moved_subtree: std::collections::HashSet<autosar_data::Element> = src.elements_dfs().map(|(_, e)| e).collect();
-    names.iter().any(|n| model.get_element_by_path(&format!("{prefix}/{n}")).is_some_and(|e| !moved_subtree.contains(&e))) || {
+    // (a moved sub tree leaves its old place, a copied one stays and can collide with its own copy)
+    names.iter().any(|n| model.get_element_by_path(&format!("{prefix}/{n}")).is_some_and(|e| !is_move || !moved_subtree.contains(&e))) || {
         // collisions among the children themselves in the destination namespace
         let mut sorted = names.clone();
         sorted.sort();
